@@ -1,3 +1,4 @@
+import Cuke.Props.C05
 import Cuke.Lemmas.Sched
 import Cuke.Model.SchedLts
 import Cuke.Props.C06
@@ -142,5 +143,49 @@ theorem lts_failfast_exit_is_final (c : SCfg) (pre post : List Label) (sl : Bool
     | cons l rest ih2 => intro s h; exact clean0_step_mono c s l (ih2 _ h)
   exact exiting_run c post _ (idle_true_exiting c (accept c pre) sl (clean0_all _ (hmono post _ hc)).1) hc
 
-end Cuke.C08
+/-! ## if nothing fails, fail-fast changes nothing -/
 
+/-- a label that reports a FINAL failure (a failed attempt that is not retried) or a parser error -/
+def isFailureLabel : Label → Bool
+  | .pErr => true
+  | .notif _ failed retried => failed && !retried
+  | _ => false
+
+/-- the same configuration with other fail-fast flags -/
+def withFF (c : SCfg) (cli builder : Bool) : SCfg := { c with cliFF := cli, builderFF := builder }
+
+/-- one label: unless it reports a final failure or a parser error, the scheduler's reaction does not depend on
+    the fail-fast flags -/
+theorem stepL_ff_irrelevant (c : SCfg) (x y : Bool) (s : SState) (l : Label) (h : isFailureLabel l = false) :
+    stepL (withFF c x y) s l = stepL c s l := by
+  cases l with
+  | pErr => simp [isFailureLabel] at h
+  | notif id f r =>
+    simp only [isFailureLabel] at h
+    have h1 : ∀ ff, tripFailFast ff f r = false := by intro ff; simp [tripFailFast]; cases ff <;> simp_all
+    simp only [stepL, h1]
+    rfl
+  | _ => rfl
+
+/-- **If nothing fails, a fail-fast run is a normal run.** For every log without a final failure and without a parser
+    error (failed attempts that are retried are allowed), the scheduler model makes exactly the same decisions with
+    fail-fast on as with fail-fast off: the same state after every label — the same batches handed out, the same
+    events owed and sent, the same disagreements (none, if the log is a run of the real code). So the runs the code
+    can make with `--fail-fast` when nothing fails are exactly the runs it can make without it. -/
+theorem lts_failfast_transparent_if_nothing_fails (c : SCfg) (x y : Bool) (ls : List Label)
+    (h : ∀ l ∈ ls, isFailureLabel l = false) : accept (withFF c x y) ls = accept c ls := by
+  unfold accept
+  generalize ({} : SState) = s0
+  induction ls generalizing s0 with
+  | nil => rfl
+  | cons l rest ih =>
+    simp only [foldl_cons]
+    rw [stepL_ff_irrelevant c x y s0 l (h l mem_cons_self)]
+    exact ih (fun l' hl' => h l' (mem_cons_of_mem _ hl')) _
+
+/-- non-vacuity: the retry example run (a failed attempt that IS retried, then a pass) holds no failure label, is
+    replayed without a disagreement, and with fail-fast switched on it is replayed to the very same state -/
+example : (∀ l ∈ Cuke.C05.rlog, isFailureLabel l = false) ∧
+    (finalChecks (accept (withFF Cuke.C05.rcfg true false) Cuke.C05.rlog)).dis.isEmpty = true := by decide +kernel
+
+end Cuke.C08
